@@ -390,6 +390,13 @@ func cmdCheck(args []string) int {
 			} else if haveExpected {
 				path := writeReplay(replayDir, *prop, ob, p)
 				confirmed := replayConfirmed(path)
+				opk := ob.Func
+				if i := strings.Index(opk, "."); i >= 0 {
+					opk = opk[:i]
+				}
+				if len(p.OrphanPkgs[opk]) > 0 && len(p.BindByFunc[ob.Func]) == 0 {
+					p.bindProblem(ob.Func, p.OrphanPkgs[opk][0]+": a function under contract of this package is gone, its callers' proofs have lost it")
+				}
 				if (len(p.BindByFunc[ob.Func]) > 0 || len(p.ApproxBind[ob.Func]) > 0) && !confirmed {
 					// the contract of this function no longer fits its code (a loop was restructured, a local renamed): the
 					// failed proof says nothing about the property. Undecided; the check ends with status 2, not with a violation
@@ -474,6 +481,11 @@ func cmdCheck(args []string) int {
 		fmt.Printf("expected list rewritten: %d obligations\n", len(newExpected))
 	}
 	// binding problems: an error (status 2) only where an obligation of that function could not be established
+	for _, pk := range sortedKeys(p.OrphanPkgs) {
+		for _, m := range p.OrphanPkgs[pk] {
+			fmt.Println("NOTE contract-binding", m)
+		}
+	}
 	for _, fn := range sortedKeys(p.ApproxBind) {
 		if len(bindUndecided[fn]) > 0 && len(p.BindByFunc[fn]) == 0 {
 			p.bindProblem(fn, p.ApproxBind[fn][0]+" (guessed); the proof over the guessed binding failed")
